@@ -2086,19 +2086,22 @@ class PGPKey(Armorable, ParentRef, PGPObject):
         bsig = self.bind(key, **prefs)
         key |= bsig
 
+    def _leading_identity(self):
+        # the identity whose self-signature speaks for the key: the first one that has a self-signature.  There may be
+        # no user id yet (a photo was added first), and identities without a self-signature sort before the others
+        primary = self if self.is_primary or self.parent is None else self.parent
+        return next((u for u in primary._uids if u.selfsig is not None), None)
+
     def _get_key_flags(self, user=None):
         if self.is_primary:
             if user is not None:
                 user = self.get_uid(user)
 
-            elif len(self._uids) == 0:
-                return {KeyFlags.Certify}
-
             else:
-                user = next(iter(self.userids))
+                user = self._leading_identity()
 
             # RFC 4880 says that primary keys *must* be capable of certification
-            return {KeyFlags.Certify} | (user.selfsig.key_flags if user.selfsig else set())
+            return {KeyFlags.Certify} | (user.selfsig.key_flags if user is not None and user.selfsig else set())
 
         # the most recent binding signature governs (signatures are kept sorted by creation time); a subkey that
         # has no valid binding signature (none by the primary key, or expired ones only) has no capability at all
@@ -2118,14 +2121,14 @@ class PGPKey(Armorable, ParentRef, PGPObject):
             uid = self.get_uid(user)
 
         else:
-            uid = next(iter(self.userids), None)
-            if uid is None and self.parent is not None:
-                uid = next(iter(self.parent.userids), None)
+            uid = self._leading_identity()
+
+        hashprefs = uid.selfsig.hashprefs if uid is not None and uid.selfsig is not None else None
 
         if sig.hash_algorithm is None:
-            sig._signature.halg = next((h for h in uid.selfsig.hashprefs if h.is_supported), HashAlgorithm.SHA256)
+            sig._signature.halg = next((h for h in (hashprefs or []) if h.is_supported), HashAlgorithm.SHA256)
 
-        if uid is not None and sig.hash_algorithm not in uid.selfsig.hashprefs:
+        if hashprefs is not None and sig.hash_algorithm not in hashprefs:
             warnings.warn("Selected hash algorithm not in key preferences", stacklevel=4)
 
         # signature options that can be applied at any level
@@ -2791,16 +2794,18 @@ class PGPKey(Armorable, ParentRef, PGPObject):
         if user is not None:
             uid = self.get_uid(user)
         else:
-            uid = next(iter(self.userids), None)
-            if uid is None and self.parent is not None:
-                uid = next(iter(self.parent.userids), None)
-        pref_cipher = next((c for c in uid.selfsig.cipherprefs if c.is_supported), SymmetricKeyAlgorithm.TripleDES)
+            uid = self._leading_identity()
+
+        # an identity without a self-signature states no preferences
+        selfsig = uid.selfsig if uid is not None else None
+        cipherprefs = selfsig.cipherprefs if selfsig is not None else []
+        pref_cipher = next((c for c in cipherprefs if c.is_supported), SymmetricKeyAlgorithm.TripleDES)
         cipher_algo = prefs.pop('cipher', pref_cipher)
 
-        if cipher_algo not in uid.selfsig.cipherprefs:
+        if cipher_algo not in cipherprefs:
             warnings.warn("Selected symmetric algorithm not in key preferences", stacklevel=3)
 
-        if message.is_compressed and message._compression not in uid.selfsig.compprefs:
+        if message.is_compressed and message._compression not in (selfsig.compprefs if selfsig is not None else []):
             warnings.warn("Selected compression algorithm not in key preferences", stacklevel=3)
 
         if sessionkey is None:
